@@ -289,6 +289,36 @@ class TermEval:
             if leaf in ("neg", "negative") and len(args) == 1:
                 return args[0].neg()
             raise Unsupported(f"torch function {short(e)}")
+        if isinstance(e, ast.Call) and isinstance(e.func, ast.Name) and fn is not None and e.func.id in fn.module.functions \
+                and self.depth < 4 and not any(isinstance(a, ast.Starred) for a in e.args):
+            # a module-level helper of the operator's module (_times_alpha(other, alpha)): its definition, parameters bound
+            target = fn.module.functions[e.func.id]
+            params = target.params()
+            args = [self.ev(a, env, assume, fn) for a in e.args]
+            kw = {k.arg: self.ev(k.value, env, assume, fn) for k in e.keywords if k.arg}
+            dfl = target.defaults()
+            env2: Dict[str, object] = {}
+            for i, p in enumerate(params):
+                if i < len(args):
+                    env2[p] = args[i]
+                elif p in kw:
+                    env2[p] = kw[p]
+                elif p in dfl and isinstance(dfl[p], ast.Constant) and dfl[p].value is None:
+                    env2[p] = None
+                else:
+                    raise Unsupported(f"argument {p} of {e.func.id}")
+            assume2 = {k_: v_ for k_, v_ in assume.items() if k_.startswith("#")}
+            for p, v in env2.items():
+                assume2[f"{p} is None"] = v is None
+                assume2[f"{p} is not None"] = v is not None
+            self.depth += 1
+            try:
+                r = self.method(target, env2, assume2)
+            finally:
+                self.depth -= 1
+            if r is None:
+                raise Unsupported(f"{e.func.id} returns nothing")
+            return r
         if isinstance(e, ast.Call) and isinstance(e.func, ast.Attribute):
             recv = self.ev(e.func.value, env, assume, fn)
             args = [self.ev(a, env, assume, fn) for a in e.args]
